@@ -14,11 +14,14 @@ package main
 // Decided by a scan, like the frame obligations; nothing here goes to a solver.
 
 import (
+	"bytes"
 	"fmt"
 	"go/ast"
 	"go/parser"
+	"go/printer"
 	"go/token"
 	"os"
+	"os/exec"
 	"path/filepath"
 	"regexp"
 	"sort"
@@ -466,6 +469,7 @@ func (e *Engine) grammarScan(prop string) []*Obligation {
 	if !gp.fresh {
 		fail(shape, "yyParse does not run on a new parser value (yyNewParser)")
 	}
+	obs = append(obs, e.generatedParserObligation(prop, dir, mk, fail))
 	isNT := map[string]bool{}
 	for _, r := range g.rules {
 		isNT[r.lhs] = true
@@ -589,4 +593,153 @@ func altIndex(rules []yRule, i int) int {
 		}
 	}
 	return n
+}
+
+// grammarFingerprint extracts from a goyacc-generated file everything that depends on the grammar:
+// the numeric tables, the constants, the token names, the union type and the reduction cases. The
+// driver loop itself is a fixed template that differs between goyacc versions (integer conversions)
+// and is not compared.
+func grammarFingerprint(path string) (map[string]string, error) {
+	fset := token.NewFileSet()
+	f, err := parser.ParseFile(fset, path, nil, 0) // comments dropped (//line directives)
+	if err != nil {
+		return nil, err
+	}
+	pr := func(n ast.Node) string {
+		var buf bytes.Buffer
+		cfg := printer.Config{Mode: printer.UseSpaces | printer.TabIndent, Tabwidth: 8}
+		cfg.Fprint(&buf, fset, n)
+		return strings.Join(strings.Fields(buf.String()), " ")
+	}
+	fp := map[string]string{}
+	for _, d := range f.Decls {
+		switch t := d.(type) {
+		case *ast.GenDecl:
+			for _, sp := range t.Specs {
+				switch v := sp.(type) {
+				case *ast.ValueSpec:
+					for k, n := range v.Names {
+						if k >= len(v.Values) {
+							if t.Tok == token.CONST {
+								fp["const "+n.Name] = "iota-continued"
+							}
+							continue
+						}
+						if cl, ok := v.Values[k].(*ast.CompositeLit); ok {
+							var elts []string
+							for _, e := range cl.Elts {
+								elts = append(elts, pr(e))
+							}
+							fp["table "+n.Name] = strings.Join(elts, ",")
+						} else if t.Tok == token.CONST {
+							fp["const "+n.Name] = pr(v.Values[k])
+						}
+					}
+				case *ast.TypeSpec:
+					if v.Name.Name == "yySymType" {
+						fp["type yySymType"] = pr(v.Type)
+					}
+				}
+			}
+		case *ast.FuncDecl:
+			if t.Body == nil {
+				continue
+			}
+			ast.Inspect(t.Body, func(n ast.Node) bool {
+				sw, ok := n.(*ast.SwitchStmt)
+				if !ok {
+					return true
+				}
+				if id, ok := sw.Tag.(*ast.Ident); !ok || id.Name != "yynt" {
+					return true
+				}
+				for _, cc := range sw.Body.List {
+					c := cc.(*ast.CaseClause)
+					key := "case default"
+					if len(c.List) == 1 {
+						key = "case " + pr(c.List[0])
+					}
+					var body []string
+					for _, st := range c.Body {
+						body = append(body, pr(st))
+					}
+					fp[key] = strings.Join(body, " ; ")
+				}
+				return false
+			})
+		}
+	}
+	return fp, nil
+}
+
+// generatedParserObligation: sql/parser.go is what goyacc generates from sql/parser.go.y (goyacc
+// built from the x/tools source kept under /verif/tools/goyacc), up to comments, layout and the
+// element types of the tables. This ties the grammar the other obligations reason about to the
+// tables and reduction code that actually run.
+func (e *Engine) generatedParserObligation(prop, dir string, mk func(string, string) *Obligation, fail func(*Obligation, string)) *Obligation {
+	ob := mk("sql.grammar.generated", "the grammar-dependent parts of sql/parser.go (parse tables, constants, token names, union type, every reduction case) equal what goyacc generates from sql/parser.go.y")
+	exe, err := os.Executable()
+	goyacc := ""
+	if err == nil {
+		goyacc = filepath.Join(filepath.Dir(exe), "goyacc")
+	}
+	if _, err := os.Stat(goyacc); err != nil {
+		ob.Status = "undecided"
+		ob.Output = "goyacc binary not found next to govc (run /verif/setup.sh)"
+		return ob
+	}
+	tmp, err := os.MkdirTemp("", "govc-goyacc")
+	if err != nil {
+		ob.Status = "undecided"
+		ob.Output = err.Error()
+		return ob
+	}
+	defer os.RemoveAll(tmp)
+	src, _ := os.ReadFile(filepath.Join(dir, "parser.go.y"))
+	os.WriteFile(filepath.Join(tmp, "parser.go.y"), src, 0o644)
+	cmd := exec.Command(goyacc, "-o", "parser.go", "-v", "y.output", "parser.go.y")
+	cmd.Dir = tmp
+	if out, err := cmd.CombinedOutput(); err != nil {
+		fail(ob, "goyacc failed on parser.go.y: "+strings.TrimSpace(string(out)))
+		return ob
+	}
+	want, err1 := grammarFingerprint(filepath.Join(tmp, "parser.go"))
+	have, err2 := grammarFingerprint(filepath.Join(dir, "parser.go"))
+	if err1 != nil || err2 != nil {
+		fail(ob, fmt.Sprintf("cannot parse: %v %v", err1, err2))
+		return ob
+	}
+	var diffs []string
+	for k, w := range want {
+		h, ok := have[k]
+		switch {
+		case !ok:
+			diffs = append(diffs, k+": missing in the repository's parser.go")
+		case h != w:
+			a, b := w, h
+			if len(a) > 160 {
+				a = a[:160] + "..."
+			}
+			if len(b) > 160 {
+				b = b[:160] + "..."
+			}
+			diffs = append(diffs, fmt.Sprintf("%s: generated `%s`, repository `%s`", k, a, b))
+		}
+	}
+	for k := range have {
+		if _, ok := want[k]; !ok {
+			diffs = append(diffs, k+": not produced by goyacc from parser.go.y")
+		}
+	}
+	sort.Strings(diffs)
+	if len(want) < 20 {
+		diffs = append(diffs, "fingerprint of the generated file is implausibly small")
+	}
+	if len(diffs) > 0 {
+		if len(diffs) > 6 {
+			diffs = append(diffs[:6], fmt.Sprintf("... and %d more", len(diffs)-6))
+		}
+		fail(ob, strings.Join(diffs, "; "))
+	}
+	return ob
 }
